@@ -24,6 +24,7 @@ def handle (line : String) : String :=
   | "xform" :: rest => xformLine (" ".intercalate rest)
   | "fromast" :: rest => fromastLine (" ".intercalate rest)
   | "c16pred" :: rest => c16predLine (" ".intercalate rest)
+  | "c16witness" :: rest => c16witnessLine (" ".intercalate rest)
   | _ => "bad-request"
 
 /-- verbs that need the driver's schema store (IO) -/
